@@ -22,6 +22,18 @@ pub fn run(args: &Args) {
     let mut mains: Vec<Vec<usize>> = vec![vec![]; batches];
     let mut accepted = 0usize;
     let mut tries = 0usize;
+    // witnesses of listed findings (known and fixed) are part of every batch set
+    let mut witnesses: Vec<(String, String, String)> = vec![];
+    for k in vmon::shard::load_known(&args.known, "C02") {
+        if let (Some(g), Some(r), Some(i)) = (k.witness["grammar"].as_str(), k.witness["rule"].as_str(), k.witness["input"].as_str()) {
+            if let Some(c) = k.witness["config"].as_str() {
+                if c != config_name() {
+                    continue;
+                }
+            }
+            witnesses.push((g.to_string(), r.to_string(), i.to_string()));
+        }
+    }
     while accepted < n && tries < n * 20 {
         tries += 1;
         let mut grng = rng.fork();
@@ -42,6 +54,15 @@ pub fn run(args: &Args) {
             _ => {}
         }
         let mut rules = gen_grammar(&mut grng, &cfg);
+        let mut forced_input: Option<String> = None;
+        let mut family = family;
+        if let Some((g, _r, i)) = witnesses.pop() {
+            if let Ok((ast, _)) = read_grammar(&g) {
+                rules = ast;
+                forced_input = Some(i);
+                family = "known_findings_witness";
+            }
+        }
         if family == "skip_rule_modifiers" && !rules.iter().any(|r| r.name == "WHITESPACE" || r.name == "COMMENT") {
             // make sure the family has what it is about
             let ty = *grng.pick(&[
@@ -72,6 +93,12 @@ pub fn run(args: &Args) {
                 })
             })
             .collect();
+        let mut inputs = inputs;
+        if let Some(i) = forced_input {
+            if !inputs.contains(&i) {
+                inputs.push(i);
+            }
+        }
         let idx = accepted;
         let b = idx % batches;
         let names: Vec<String> = ast.iter().map(|r| r.name.clone()).collect();
@@ -90,16 +117,17 @@ pub fn run(args: &Args) {
         let _ = writeln!(src, "        }})");
         let _ = writeln!(src, "    }}");
         let _ = writeln!(src, "    pub fn parse(rule: &str, input: &str) -> Option<vmon::c02::Parsed> {{");
-        let _ = writeln!(src, "        let r = by_name(rule)?;");
-        let _ = writeln!(src, "        Some(vmon::c02::normalise(<P as pest::Parser<Rule>>::parse(r, input)))");
+        let _ = writeln!(src, "        let rule_value__ = by_name(rule)?;");
+        let _ = writeln!(src, "        Some(vmon::c02::normalise(<P as pest::Parser<Rule>>::parse(rule_value__, input)))");
         let _ = writeln!(src, "    }}");
         let _ = writeln!(src, "    pub fn rule_index(rule: &str) -> Option<usize> {{");
-        let _ = writeln!(src, "        by_name(rule).map(|r| r as usize)");
+        let _ = writeln!(src, "        by_name(rule).map(|rule_value__| rule_value__ as usize)");
         let _ = writeln!(src, "    }}");
         let _ = writeln!(src, "}}");
         mains[b].push(idx);
         accepted += 1;
     }
+    let vmon_dir = args.opt("vmon-dir").unwrap_or("/verif/harness/vmon").to_string();
     let feat = if extras { ", features = [\"grammar-extras\"]" } else { "" };
     let mut members = vec![];
     for b in 0..batches {
@@ -109,7 +137,7 @@ pub fn run(args: &Args) {
         write_if_changed(
             d.join("Cargo.toml"),
             format!(
-                "[package]\nname = \"b{b}\"\nversion = \"0.0.0\"\nedition = \"2021\"\n\n[dependencies]\nvmon = {{ path = \"/verif/harness/vmon\"{feat} }}\npest = {{ path = \"/repo/pest\" }}\npest_derive = {{ path = \"/repo/derive\"{feat} }}\npest_meta = {{ path = \"/repo/meta\"{feat} }}\npest_vm = {{ path = \"/repo/vm\"{feat} }}\n"
+                "[package]\nname = \"b{b}\"\nversion = \"0.0.0\"\nedition = \"2021\"\n\n[dependencies]\nvmon = {{ path = \"{vmon_dir}\"{feat} }}\npest = {{ path = \"/repo/pest\" }}\npest_derive = {{ path = \"/repo/derive\"{feat} }}\npest_meta = {{ path = \"/repo/meta\"{feat} }}\npest_vm = {{ path = \"/repo/vm\"{feat} }}\n"
             ),
         )
         .unwrap();
